@@ -420,15 +420,28 @@ class History:
         self.in_callback = True
         try:
             if mode == "ok":
-                if job["kind"] == "out" and key is not None and self.fresh_readers(key):
-                    pass  # flagged at submission
-                d.run(job)
+                if not self.run_guarded(lambda: d.run(job), f"{job['kind']} job of {key}"):
+                    return
                 self.col.count("pageouts_run" if job["kind"] == "out" else "pageins_run")
+            elif mode == "fail-disk-write":
+                # the disk write fails while the segment still exists (spill directory unwritable): the real worker body reports failure
+                self.disk_failures_seen = True
+                self.col.count("disk_failures_injected")
+                real_root = d.root
+                class _NoDir:  # noqa: N801
+                    name = "/nonexistent-verif-dir"
+                d.root = _NoDir()
+                try:
+                    if not self.run_guarded(lambda: d.run(job), f"failing {job['kind']} job of {key}"):
+                        return
+                finally:
+                    d.root = real_root
             else:
                 self.disk_failures_seen = True
                 self.col.count("disk_failures_injected")
                 if mode == "fail-clean":
-                    job["callback"](False)
+                    if not self.run_guarded(lambda: job["callback"](False), f"failure callback of the {job['kind']} job of {key}"):
+                        return
                 elif mode == "fail-after-side-effect":
                     if job["kind"] == "out":
                         try:
@@ -446,7 +459,8 @@ class History:
                             unregister(shm)
                         except Exception:  # noqa: BLE001
                             pass
-                    job["callback"](False)
+                    if not self.run_guarded(lambda: job["callback"](False), f"failure callback of the {job['kind']} job of {key}"):
+                        return
         finally:
             self.in_callback = False
         self.log("job-run", job["kind"], key, mode, self.status_of(key) if key else None)
@@ -463,6 +477,40 @@ class History:
                 self.content[key] = None if st is not None else self.content.get(key)
                 if st is None:
                     self.forget(key)
+
+    def run_guarded(self, fn, what) -> bool:
+        """Runs a disk job / callback in a thread (as the store's own pools do). If the thread is still blocked after 5 s *inside
+        a lock acquisition of dataset.py* while no other thread exists that could release that lock, it is deadlocked for good:
+        page-outs never complete, the eviction lock is never released (C09: satisfiable requests wait for ever)."""
+        import sys
+        import traceback
+        box = {}
+
+        def target():
+            try:
+                fn()
+            except BaseException as e:  # noqa: BLE001
+                box["exc"] = e
+        th = threading.Thread(target=target, daemon=True)
+        th.start()
+        th.join(5)
+        if not th.is_alive():
+            if "exc" in box:
+                raise box["exc"]
+            return True
+        frame = sys._current_frames().get(th.ident)
+        stack = traceback.extract_stack(frame) if frame is not None else []
+        in_store = [f for f in stack if f.filename.endswith("shm/dataset.py")]
+        where = f"{in_store[-1].name}:{in_store[-1].lineno} `{in_store[-1].line}`" if in_store else "?"
+        if in_store and ("with self.pageout" in (in_store[-1].line or "") or "acquire" in (in_store[-1].line or "")):
+            self.log("deadlock", what, where)
+            self.viol("C09", "disk-job-callback-deadlocks-on-store-lock",
+                      f"the {what} is blocked for good at {where}; no other thread can release that lock: page-out accounting never completes and the eviction lock stays held")
+            self.viol("C08", "disk-job-callback-deadlocks-on-store-lock", f"the {what} is blocked for good at {where}")
+        else:
+            self.col.not_reached(f"a disk job thread did not finish within 5 s ({what}, at {where})")
+        self.failed = True
+        return False
 
     def is_stale_hit(self, job) -> bool:
         """The job was submitted for a dataset that has since been purged and whose key (hence segment name) was allocated again."""
@@ -636,7 +684,7 @@ class History:
                 self.run_job(jobs[0] if self.rng.random() < 0.5 else self.rng.choice(jobs))
         elif r < 0.87:
             if jobs and self.allow_failures:
-                self.run_job(self.rng.choice(jobs), self.rng.choice(["fail-clean", "fail-after-side-effect"]))
+                self.run_job(self.rng.choice(jobs), self.rng.choice(["fail-clean", "fail-after-side-effect", "fail-disk-write"]))
         elif r < 0.90:
             self.op_race_purge_pageout()
         elif r < 0.94:
